@@ -109,8 +109,8 @@ def completeness(tree, text, datum) -> t.Optional[str]:
         if hasattr(node, 'actual') and not in_sum:
             try:
                 shown = str(node.actual)
-            except Exception as e:  # noqa
-                return f"str() of the offending value raises {type(e).__name__}"
+            except Exception:  # noqa: the value cannot be printed at all (e.g. an int beyond the str-digits limit)
+                shown = ''
             if shown not in text[pos:]:
                 return f"offending value {shown[:60]!r} is not shown"
         cause = getattr(node, 'cause', None)
@@ -129,8 +129,15 @@ def completeness(tree, text, datum) -> t.Optional[str]:
 def _shown(c, text, pos):
     try:
         return f"`{c}`" in text[pos:]
-    except Exception:  # noqa
-        return False
+    except Exception:  # noqa: unprintable value
+        return 'unprintable' in text[pos:]
+
+
+HUGE = [10 ** 5000, [10 ** 5000], {'a': -10 ** 5000}, (1, 10 ** 5000)]     # values whose str() raises (int str-digits limit)
+
+
+def values_c08(ast, tier):
+    return e1.values_for(ast, tier) + HUGE
 
 
 def render(err):
@@ -206,7 +213,7 @@ def digest_pass(i, n, tier):
     exprs = grammar.expressions_ext(tier)
     for idx in range(i, len(exprs), n):
         ast = exprs[idx]
-        vals = e1.values_for(ast, tier)
+        vals = values_c08(ast, tier)
         T = grammar.build(ast, 0, 0)
         for vi, v in enumerate(vals):
             try:
@@ -250,7 +257,7 @@ def run_seedcmp(shard, tier):
         if a[key] != b.get(key):
             idx, vi = map(int, key.split(':'))
             ast = exprs[idx]
-            v = e1.values_for(ast, tier)[vi]
+            v = values_c08(ast, tier)[vi]
             core.add_violation(res, {'kind': 'text_depends_on_hash_seed', 'root': e1.root_of(ast)},
                                f"from_data({values.expr(v)[:100]}, {grammar.render(ast)}): the rendered error differs between "
                                f"interpreters started with PYTHONHASHSEED=1 and 2",
@@ -277,7 +284,7 @@ def seed_texts(cell):
 def run_shard(shard, tier):
     if shard.get('mode') == 'seedcmp':
         return run_seedcmp(shard, tier)
-    return e1.run_shard(shard, tier, judge, expr_fn=grammar.expressions_ext)
+    return e1.run_shard(shard, tier, judge, value_fn=values_c08, expr_fn=grammar.expressions_ext)
 
 
 def replay(cell):
@@ -287,4 +294,4 @@ def replay(cell):
             return [{'sig': {'kind': 'text_depends_on_hash_seed', 'root': e1.root_of(cell['ast'])},
                      'msg': f"texts differ:\n--- seed 1\n{a}\n--- seed 2\n{b}", 'cell': cell, 'cost': 0}]
         return []
-    return e1.replay(cell, judge)
+    return e1.replay(cell, judge, value_fn=values_c08)
